@@ -115,10 +115,18 @@ def _symbolic_comp(ex, st, e, kind, g, it):
     ex.assume_wf(s1, seq.elem, seq.at(i))
     cond = z3.BoolVal(True)
     for cnd in g.ifs:
-        oc = ex.eval(cnd, s1)
-        if len(oc) != 1 or oc[0].kind != "val":
-            raise _U("comprehension filter forks or raises on a symbolic element", cnd)
-        cond = z3.And(cond, ty.to_bool(ex.truth(oc[0].val, s1, cnd)))
+        # a filter with short-circuit operators forks: the forks are merged into one formula (path condition => truth value)
+        sf = s1.fork()
+        sf.assume(cond)
+        nd = len(sf.decisions)
+        oc = ex.eval(cnd, sf)
+        if not oc or any(o.kind != "val" for o in oc):
+            raise _U("comprehension filter raises on a symbolic element", cnd)
+        disj = []
+        for o in oc:
+            pcond = z3.And(*o.st.decisions[nd:]) if len(o.st.decisions) > nd else z3.BoolVal(True)
+            disj.append(z3.And(pcond, ty.to_bool(ex.truth(o.val, o.st, cnd))))
+        cond = z3.And(cond, z3.Or(*disj) if len(disj) > 1 else disj[0])
     if kind == "dict":
         raise _U("dict comprehension over a symbolic sequence", e)
     s1.assume(cond)
